@@ -160,7 +160,7 @@ pub fn eval(e: &RefExpr, data: &J, cx: &mut Ctx) -> R {
         E::Cmp(op, l, r) => {
             let lv = eval(l, data, cx)?;
             let rv = eval(r, data, cx)?;
-            Ok(compare(*op, &lv, &rv))
+            Ok(compare_cx(*op, &lv, &rv, cx))
         }
         E::Expref(x) => Ok(J::Expref(Some(Rc::new((**x).clone())))),
         E::MultiList(es) => {
@@ -259,6 +259,32 @@ pub fn eval(e: &RefExpr, data: &J, cx: &mut Ctx) -> R {
             call(name, &vals, cx)
         }
     }
+}
+
+/// Do two values contain corresponding numbers that are distinct but closer
+/// than the statement's "well separated" (relative 1e-9)?  The outcome of an
+/// equality test on such a pair is not asserted.
+pub fn has_near_tie(l: &J, r: &J) -> bool {
+    match (l, r) {
+        (J::Num(a), J::Num(b2)) => {
+            if a.same_value(b2) {
+                return false;
+            }
+            let (x, y) = (a.f(), b2.f());
+            let d = (x - y).abs();
+            x == y || d <= 1e-9 * x.abs().max(y.abs())
+        }
+        (J::Arr(a), J::Arr(b2)) => a.len() == b2.len() && a.iter().zip(b2.iter()).any(|(x, y)| has_near_tie(x, y)),
+        (J::Obj(a), J::Obj(b2)) => a.iter().any(|(k, x)| b2.get(k).map(|y| has_near_tie(x, y)).unwrap_or(false)),
+        _ => false,
+    }
+}
+
+pub fn compare_cx(op: CmpOp, l: &J, r: &J, cx: &mut Ctx) -> J {
+    if has_near_tie(l, r) {
+        cx.ambiguous.push("near-tie-comparison");
+    }
+    compare(op, l, r)
 }
 
 pub fn compare(op: CmpOp, l: &J, r: &J) -> J {
@@ -563,7 +589,12 @@ fn call_valid(name: &'static str, args: &[J], cx: &mut Ctx) -> R {
                 J::Str(n) => s.contains(n.as_str()),
                 _ => false,
             })),
-            J::Arr(a) => Ok(J::Bool(a.iter().any(|x| x.deep_eq(&args[1])))),
+            J::Arr(a) => {
+                if a.iter().any(|x| has_near_tie(x, &args[1])) {
+                    cx.ambiguous.push("near-tie-comparison");
+                }
+                Ok(J::Bool(a.iter().any(|x| x.deep_eq(&args[1]))))
+            }
             _ => unreachable!(),
         },
         "ends_with" => Ok(J::Bool(a0.as_str().unwrap().ends_with(args[1].as_str().unwrap()))),
@@ -611,6 +642,10 @@ fn call_valid(name: &'static str, args: &[J], cx: &mut Ctx) -> R {
                 if better {
                     best = x;
                 }
+            }
+            // equal numbers in different spelling (0 and 0.0): either is a valid answer
+            if a.iter().any(|x| key_eq(x, best) && !x.exact_eq(best)) {
+                cx.ambiguous.push("extreme-tie-spelling");
             }
             Ok(best.clone())
         }
